@@ -45,6 +45,8 @@ func main() {
 		cmdACL(os.Args[2:])
 	case "pubsub":
 		cmdPubSub(os.Args[2:])
+	case "wire":
+		cmdWire(os.Args[2:])
 	default:
 		die(2, "unknown driver %q", os.Args[1])
 	}
